@@ -57,6 +57,9 @@ func k3(args []string) {
 	for i := -3; i <= 12; i++ {
 		emit("int", fmt.Sprint(i), it.IntImpl(i), it.IntNative(i), fmt.Sprintf("(k3i %d)", i+100))
 	}
+	for _, c := range it.IntTypedCases() {
+		emit("int", c[0], c[1], c[2], "")
+	}
 	for _, c := range it.SliceCases(r, nSl) {
 		emit("slice", c.String(), it.SliceImpl(c), it.SliceNative(c), sliceReq(c))
 	}
